@@ -46,6 +46,7 @@ NonAscii == {HI, NB}
 Chr(s, i) == SubSeq(s, i, i)
 After(s, i) == SubSeq(s, i + 1, Len(s))                  \* text after position i
 PyPrefix(s, n) == SubSeq(s, 1, IF n < Len(s) THEN n ELSE Len(s))   \* Python s[0:n] (never raises)
+PySlice(s, i, j) == SubSeq(s, i + 1, IF j < Len(s) THEN j ELSE Len(s))   \* Python s[i:j], 0 <= i <= j (never raises)
 \* single-pass helpers (the generic ones of Text are quadratic; these lines are evaluated millions of times)
 RECURSIVE LeftEdge(_, _)
 LeftEdge(s, i) == IF i <= Len(s) /\ Chr(s, i) \in WireWS THEN LeftEdge(s, i + 1) ELSE i
@@ -126,9 +127,12 @@ ShapeHTTP(line) == /\ CountCh(line, " ") = 2
                    /\ HttpMethod(line) \in {"GET", "HEAD"}
                    /\ TX!StartsWith(HttpVersion(line), "HTTP/")
 \* conf/pygopherd.conf: "waptop is the URL to access with WAP devices ... accessing http://sitename.com/wap will
-\* bring up your site in WAP mode.  PyGopherd can autodetect WAP from some phones".  wap.py: "If it starts with
-\* waptop, *guaranteed* to be wap".
-ShapeWAP(line, hdrs) == ShapeHTTP(line) /\ (TX!StartsWith(HttpPath(line), WapTop) \/ WapBrowser(HeaderBlock(hdrs, 1, NoHdr)))
+\* bring up your site in WAP mode.  PyGopherd can autodetect WAP from some phones".  The WAP front end lives BELOW
+\* the prefix: the prefix itself, a path continuing with "/", or the prefix followed by a query ("?") - a name that
+\* merely begins with the same letters (/wapx, /wap.txt) is an ordinary path (wap.py: "If it is below waptop,
+\* *guaranteed* to be wap"; /repo commit 7016e2c).
+BelowPrefix(path, top) == path = top \/ TX!StartsWith(path, top \o "/") \/ TX!StartsWith(path, top \o "?")
+ShapeWAP(line, hdrs) == ShapeHTTP(line) /\ (BelowPrefix(HttpPath(line), WapTop) \/ WapBrowser(HeaderBlock(hdrs, 1, NoHdr)))
 \* Gemini specification section 2: the request is "<URL><CR><LF>", an absolute URL with scheme gemini;
 \* gemini.py: "every request starting with gemini:// is meant for this server".
 ShapeGemini(line) == TX!StartsWith(line, "gemini://")
@@ -194,10 +198,12 @@ YesNo(b) == IF b THEN "yes" ELSE "no"
 \* http.py:14-23
 HttpTest(px) == Len(px.sp) = 3 /\ (px.sp[1] = "GET" \/ px.sp[1] = "HEAD") /\ PyPrefix(px.sp[3], 5) = "HTTP/"
 ClaimsHTTP(secure, px) == IF secure # px.tls THEN "no" ELSE YesNo(HttpTest(px))
-\* wap.py:23-51 (a subclass of HTTPProtocol with secure = False)
+\* wap.py:23-57 (a subclass of HTTPProtocol with secure = False)
 ClaimsWAP(px, conn) ==
     IF ClaimsHTTP(FALSE, px) # "yes" THEN Res("no", conn)
-    ELSE IF PyPrefix(px.sp[2], Len(WapTop)) = WapTop THEN Res("yes", conn)      \* requestparts[1].startswith(waptop)
+    ELSE IF /\ PyPrefix(px.sp[2], Len(WapTop)) = WapTop                        \* path.startswith(waptop) and
+            /\ PySlice(px.sp[2], Len(WapTop), Len(WapTop) + 1) \in {"", "/", "?"} \* path[len(waptop):len(waptop)+1] in ("", "/", "?")
+         THEN Res("yes", conn)
     ELSE LET c == HeaderSlurp(px.hdrs, conn) IN
          IF c.hdr.accept = "none" THEN Res("no", c)
          ELSE IF c.hdr.accept # "wml" THEN Res("no", c)             \* re.search("[, ]text/vnd.wap.wml", ...)
